@@ -2,6 +2,9 @@ use std::io::Write;
 
 use byteorder::{LittleEndian, WriteBytesExt};
 
+#[cfg(keepass_verif)]
+use crate::verif_hooks as getrandom;
+
 use crate::{
     crypt,
     db::{Database, HeaderAttachment},
